@@ -83,6 +83,15 @@ Theorem C20_source_pool_has_the_modelled_shape :
   Gen_pivot_footprint.pool_join_predicate && Gen_pivot_footprint.pool_enqueue_locked = true.
 Proof. exact source_pool_shape_ok. Qed.
 Print Assumptions C20_source_pool_has_the_modelled_shape.
+(* every read or write of tasks / active / stop in the worker loop, enqueue, join and the destructor is lexically inside a scope
+   holding a lock on queue_mutex constructed before it (in join: before the predicate is first evaluated): this is what makes
+   the steps of the pool model atomic and what orders the workers' writes before the caller's reads after join() *)
+Theorem C20_source_pool_accesses_all_under_the_lock : pool_table_ok Gen_pivot_footprint.pool_table = true.
+Proof. exact source_pool_accesses_locked. Qed.
+Print Assumptions C20_source_pool_accesses_all_under_the_lock.
+Theorem C20_pool_table_ok_means : forall t, pool_table_ok t = true -> forall e, In e t -> pa_locked e = true /\ pa_fn e <> POtherFn.
+Proof. exact pool_table_ok_spec. Qed.
+Print Assumptions C20_pool_table_ok_means.
 Theorem C20_table_ok_means : forall t, table_ok t = true ->
   forall e, In e t -> match f_obj e with FWatch => f_index_is_v e = true /\ f_guard_on_v e = true | FOtherShared => False | _ => True end.
 Proof. exact table_ok_spec. Qed.
